@@ -19,6 +19,7 @@ import VlsModel.Drv.C17
 import VlsModel.Drv.C18
 import VlsModel.Drv.C19
 import VlsModel.Drv.C20
+import VlsModel.Drv.FnGen
 /-
 `vlsmodel <model>`: reads one operation per line from stdin and prints one result line per
 operation.  A line `case <id>` resets the model to its initial state and is echoed, so that the
@@ -46,7 +47,8 @@ def registry : List (String × Model) :=
   C17.models ++
   C18.models ++
   C19.models ++
-  C20.models
+  C20.models ++
+  FnGen.models
 
 partial def loop (m : Model) (h : IO.FS.Stream) (out : IO.FS.Stream) (s : m.σ) : IO Unit := do
   let line ← h.getLine
